@@ -91,7 +91,8 @@ def gen_angle(rng, kind: int) -> Tuple[float, float, float]:
     if kind == 4:
         # rotations about a single axis (the other components exactly zero) and about two axes - what level designers type
         p, y, r = rng.uniform(-180, 360), rng.uniform(-360, 720), rng.uniform(-180, 360)
-        return rng.choice(((0.0, y, 0.0), (p, 0.0, 0.0), (0.0, 0.0, r), (p, y, 0.0), (0.0, y, r), (p, 0.0, r), (-0.0, y, -0.0), (0.0, 90.0 * rng.randrange(-4, 8), 0.0)))
+        return rng.choice(((0.0, y, 0.0), (p, 0.0, 0.0), (0.0, 0.0, r), (p, y, 0.0), (0.0, y, r), (p, 0.0, r), (-0.0, y, -0.0), (0.0, 90.0 * rng.randrange(-4, 8), 0.0),
+                           (0.0, 0.0, 0.0), (360.0, -360.0, 720.0), (0.0, 0.0, 0.0)))  # the identity rotation, in two spellings
     return (rng.choice((0.0, 1e-13, -1e-13, 360.0, 359.99999999999994)), rng.uniform(-1e-9, 1e-9), rng.choice((0.0, 180.0, -1e-14)))
 
 
